@@ -286,12 +286,13 @@ pub fn project(bytes: &[u8], peers: &Peers, salt: &str, ah: &ArgHashes) -> Proj 
                 };
                 if vt == "unused" {
                     trace.push(json!({"k":"exec","vt":"unused","c":short(&cid),"g":-1,
-                        "v":ah.value_of(&cid),"p":"","s":"","f":"","lens":"","ah":special("h", "")}));
+                        "v":ah.value_of(&cid),"p":"","s":"","f":"","lens":"","ah":special("h", ""),"sn":""}));
                 } else {
                     match service_result(&cid, &mut dangling) {
                         Some((v, t, a)) => {
                             attributed.entry(t.0.clone()).or_default().push(cid.clone());
-                            trace.push(json!({"k":"exec","vt":vt,"c":short(&cid),"g":g,"v":v,"p":t.0,"s":t.1,"f":t.2,"lens":t.3,"ah":a}));
+                            let sn = t.2.split_once('@').map(|x| x.1.to_string()).unwrap_or_default();
+                            trace.push(json!({"k":"exec","vt":vt,"c":short(&cid),"g":g,"v":v,"p":t.0,"s":t.1,"f":t.2,"lens":t.3,"ah":a,"sn":sn}));
                         }
                         None => trace.push(json!({"k":"dangling","c":short(&cid)})),
                     }
